@@ -804,6 +804,20 @@ def gen_marker_cases(lang, rnd, titles, toks, ncases):
                 q = rnd.choice(["５", "٣", "- ٣٣ -", "x²", "Ⅷ"])
             c.search(sid, q, alt=alts)
         cases.append(c)
+    # markers that belong to some syntax (HTML, ANSI, Markdown, format strings, regex replacement) next to titles holding the
+    # characters that syntax treats specially: the title text must come back as stored whatever the markers look like
+    syntax_titles = ["Tom & Jerry <3 cats>", "a<b>c & d</b>", "50% \"off\" 'now' \\ sale", "R&D {{dept}} $1 %s {0}", "fish&chips&amp;more",
+                     "x < y > z & w", "<b>bold</b> title", "café & crème <em>brûlée</em>", "a*b**c_d__e `f`", "\x1b[1mbright\x1b[0m lights"]
+    syntax_markers = [("<b>", "</b>"), ("<em class=\"hl\">", "</em>"), ("<span>", "</span>"), ("&lt;", "&gt;"), ("<", ">"), ("\x1b[1m", "\x1b[0m"),
+                      ("**", "**"), ("`", "`"), ("%s", "%s"), ("{0}", "{1}"), ("$1", "$2"), ("\\(", "\\)"), ("<mark>", "</mark>"), ("&", ";")]
+    c = Case("C02", "markers", lang=lang)
+    sid = c.new_store(lang)
+    for i, t in enumerate(syntax_titles):
+        c.add(sid, 300 + i, t, rnd.randint(0, 1000))
+    alts = [dict(l=cps(a), r=cps(b)) for a, b in syntax_markers]
+    for q in ("", "b", "tom jer", "x y", "cafe creme", "a b c", "bold title", "fish chips", "r d"):
+        c.search(sid, q, alt=alts)
+    cases.append(c)
     return cases
 
 
@@ -923,7 +937,7 @@ def gen_ranking_cases(lang, rnd, ncases):
             letters = [ch for ch in script_letters(lang) if ch not in f]
             content = f + rand_word(rnd, letters, 2, 5)
             other = rand_word(rnd, letters, 4, 7)
-            for tb0 in (f + " " + other, other + " " + f):
+            for tb0 in (f + " " + other, other + " " + f, f):        # the last: a title that is the function word and nothing else
                 for ra, rb in [(0, RMAX), (RMAX, 0), (7, 7)]:
                     for order in (0, 1):
                         c = Case("C08", "function", lang=lang)
@@ -953,6 +967,18 @@ def gen_ranking_cases(lang, rnd, ncases):
             sid = c.new_store(lang)
             recs = [(1, content, 0), (2, f + " " + other if k % 2 else other + " " + f, RMAX)]
             if k % 3 == 0:
+                recs.reverse()
+            for rid, tt, rr in recs:
+                c.add(sid, rid, tt, rr)
+            c.search(sid, f, expect=dict(prop="C08", scenario="function", a=1, b=2, u=cps(u), v=cps(v), x=cps(x)))
+            cases.append(c)
+            # the same word with a title made of function words only: f alone, or f next to another function word
+            g = fwords[(k + 1) % len(fwords)]
+            only = f if (k % 3 or " " in g) else (f + " " + g if k % 2 else g + " " + f)
+            c = Case("C08", "function-table", lang=lang)
+            sid = c.new_store(lang)
+            recs = [(1, f + rand_word(rnd, letters, 2, 4), 0), (2, only, RMAX)]
+            if k % 2:
                 recs.reverse()
             for rid, tt, rr in recs:
                 c.add(sid, rid, tt, rr)
@@ -989,9 +1015,12 @@ def gen_variant_cases(lang, rnd, titles, toks, ncases):
     decomp = {b[0]: a for a, b in tab["compose"]}
     marks = {a[1] for a, b in tab["compose"]}
     cases = []
+    accented = [t for t in titles if (set(cps(t)) & set(decomp)) and not (set(cps(t)) & marks)]
     for _ in range(ncases):
         n = rnd.randint(1, 6)
         recs = [rnd.choice(titles) for _ in range(n)]
+        if accented:
+            recs.append(rnd.choice(accented))       # every store holds a title with a letter the language can decompose
         recs = [t for t in recs if not (set(cps(t)) & marks)]
         if not recs:
             continue
@@ -1012,7 +1041,14 @@ def gen_variant_cases(lang, rnd, titles, toks, ncases):
         for qi in range(4):
             # the base query is spelled like the titles (upper case, accents), cut somewhere
             t = rnd.choice(recs)
+            if qi < 2 and accented and recs[-1] in accented:
+                # the queries that are typed on: around a decomposable letter of a title
+                t = recs[-1]
             ws = t.split()
+            if t is recs[-1] and qi < 2 and accented:
+                aw = [i for i, w in enumerate(ws) if set(cps(w)) & set(decomp)]
+                if aw:
+                    ws = ws[max(0, aw[0] - 1):aw[0] + 2]
             if not ws:
                 continue
             k = rnd.randint(1, min(3, len(ws)))
@@ -1054,8 +1090,36 @@ def gen_variant_cases(lang, rnd, titles, toks, ncases):
             c.search(sid, b, tag=tag)
             c.search(sid2, b, expect=dict(prop="C11", kind="decomposed", tag=tag))
             for _v in range(4):
-                ops, q = _variant(lang, b, rnd, p=rnd.choice([0.2, 0.5, 1.0]))
+                typed_on = qi < 2 and _v == 0
+                ops, q = _variant(lang, b, rnd, p=1.0 if typed_on else rnd.choice([0.2, 0.5, 1.0]))
                 prefix = cps(rnd.choice(["", "", " ", "-", "  ", ". ", "\t"]))
+                if typed_on:
+                    # the variant is typed code point by code point (a search per keystroke, the way an autocomplete box calls
+                    # the library): what the earlier keystrokes leave behind must not change the answer to the last one
+                    full = prefix + q
+                    for j in range(1, len(full)):
+                        c.search(sid, full[:j], rep=1)
+                c.search(sid, prefix + q, expect=dict(prop="C11", kind="variant", tag=tag, base=b, ops=ops, prefix=prefix))
+        cases.append(c)
+    # long queries (a pasted title of a dozen words): variants of such a query are longer than the query itself - decomposed
+    # letters are two code points, folds may expand, separators are put in front - and must still be answered alike
+    pool = [t for t in titles if not (set(cps(t)) & marks) and t.strip()]
+    for _ in range(2 if pool else 0):
+        long_t = " ".join(rnd.sample(pool, min(9, len(pool))))[:120].rstrip()
+        c = Case("C11", "variants", lang=lang)
+        sid = c.new_store(lang)
+        c.add(sid, 1, long_t, 5)
+        for i, t in enumerate(rnd.sample(pool, min(4, len(pool)))):
+            c.add(sid, 10 + i, t, rnd.randint(0, 1000))
+        for qi, cut in enumerate([len(long_t)] + [rnd.randint(56, 70) for _k in range(3)] + [rnd.randint(30, 120)]):
+            b = cps(long_t[:cut].rstrip())
+            if not b or set(b) & marks:
+                continue
+            tag = "long%d" % qi
+            c.search(sid, b, tag=tag)
+            for _v in range(3):
+                ops, q = _variant(lang, b, rnd, p=rnd.choice([0.5, 1.0, 1.0]))
+                prefix = cps(rnd.choice(["", " ", "- ", " . , ", "\t\t"]))
                 c.search(sid, prefix + q, expect=dict(prop="C11", kind="variant", tag=tag, base=b, ops=ops, prefix=prefix))
         cases.append(c)
     return cases
